@@ -8,5 +8,5 @@ CONSTANTS
   CheckFlags = TRUE
   Bug = "ClassOfOp7"
   Deviations = {}
-INVARIANTS Spelling RefinesCursor NoHitIfDone HitIfBound PairExact LoopReportExact
+INVARIANTS HitIfBound NoHitIfDone PairExact
 CHECK_DEADLOCK FALSE
